@@ -3,6 +3,8 @@ package c08
 
 import (
 	"fmt"
+	"go/scanner"
+	"go/token"
 	"regexp"
 	"strings"
 
@@ -19,7 +21,9 @@ import (
 //     `Line: n, Col: m` inside templ.Error{…} literals — nothing else
 //     (else class differs:ws when the two texts are equal after deleting all
 //     whitespace, i.e. only whitespace inside string literals differs, and
-//     differs:other otherwise).
+//     differs:other otherwise). Two texts that are the same Go token sequence
+//     (they differ only in line breaks gofmt preserves inside expressions) are
+//     the same program: held, counted as layout_only_difference.
 //
 // The class is only used to keep a reduction on the same kind of failure.
 func Check(src string) tsrc.Outcome {
@@ -43,6 +47,13 @@ func Check(src string) tsrc.Outcome {
 	if a == b {
 		return o
 	}
+	if sameTokens(a, b) {
+		// gofmt keeps the line breaks a user (or the formatter) put inside an
+		// argument list; the two files then differ as text but are the same
+		// token sequence, i.e. the same program in a different gofmt-level layout.
+		o.Note = "layout_only_difference"
+		return o
+	}
 	o.Class = "differs:other"
 	if wsOnly(a) == wsOnly(b) {
 		o.Class = "differs:ws"
@@ -51,6 +62,48 @@ func Check(src string) tsrc.Outcome {
 	o.Detail = fmt.Sprintf("generated code differs after formatting; fmt output %s; original generates %s, formatted generates %s",
 		core.Q(clip(bodyOf(F), 300)), core.Q(clip(la, 200)), core.Q(clip(lb, 200)))
 	return o
+}
+
+// sameTokens compares two Go files as token sequences (go/scanner, automatic
+// semicolons included; comments and optional trailing commas excluded).
+func sameTokens(a, b string) bool {
+	ta, oka := tokens(a)
+	tb, okb := tokens(b)
+	if !oka || !okb || len(ta) != len(tb) {
+		return false
+	}
+	for i := range ta {
+		if ta[i] != tb[i] {
+			return false
+		}
+	}
+	return true
+}
+
+func tokens(src string) ([]string, bool) {
+	var s scanner.Scanner
+	fset := token.NewFileSet()
+	ok := true
+	s.Init(fset.AddFile("", fset.Base(), len(src)), []byte(src), func(token.Position, string) { ok = false }, 0)
+	var out []string
+	for {
+		_, tok, lit := s.Scan()
+		if tok == token.EOF {
+			break
+		}
+		if tok == token.SEMICOLON {
+			lit = ";"
+		}
+		if tok == token.COMMENT {
+			continue
+		}
+		// a comma before a closing bracket is optional in Go
+		if (tok == token.RPAREN || tok == token.RBRACE || tok == token.RBRACK) && len(out) > 0 && out[len(out)-1] == token.COMMA.String()+"\x00" {
+			out = out[:len(out)-1]
+		}
+		out = append(out, tok.String()+"\x00"+lit)
+	}
+	return out, ok
 }
 
 func bodyOf(src string) string {
@@ -100,10 +153,17 @@ func clip(s string, n int) string {
 	return s
 }
 
+// Weaker orders failure classes for the reducer: a program whose generated
+// code differs in more than whitespace may contain a whitespace-only cause
+// next to another one; the reduction may isolate either.
+func Weaker(from, to string) bool { return from == "differs:other" && to == "differs:ws" }
+
 // Run is the C08 check.
 func Run(c *core.Ctx) {
 	c.Rule = "programs = every .templ file, formattestdata section and documentation code block found in the repository at run time + the complete adjacency matrix (22 node kinds^2 x 3 separators x 7 parent contexts, and every kind alone with 3x3 lead/trail whitespace) + attribute/expression/file spelling cells + seeded random compositions (depth<=4, random spellings) + token-level mutants of corpus files and cells; a program counts (evaluations) only if parse+generate+gofmt accept it; non-trivial = the formatter changes the text (fmt(x) != x), distinct by program text"
 	c.Assume("`templ fmt` is modelled in-process as parser.ParseString -> TemplateFile.Write (the stdin path of fmtcmd; imports.Process is the identity when no file path is known), `templ generate` as parser.ParseString -> generator.Generate(WithFileName) -> go/format.Source")
 	c.Assume("'same program' is decided on the generated Go text after gofmt and masking of Line/Col inside templ.Error literals; the Go compiler is not run in this tier")
-	tsrc.NewRunner(c, Check, "formatting changes the program").Run()
+	r := tsrc.NewRunner(c, Check, "formatting changes the program")
+	r.Weaker = Weaker
+	r.Run()
 }
